@@ -38,7 +38,8 @@ def generate(rng, tier):
         keys['k%d' % i] = {'alg': alg, 'uids': [['Signer %d' % i, '', 's%d@example.org' % i]], 'subkeys': subs,
                            'usage': 'C' if subs and rng.random() < 0.5 else 'CS', 'created_us': 1_500_000_000_000_000,
                            'key_expiration_s': rng.choice([None, None, 10 * DAY, 400 * DAY, 4000 * DAY]),
-                           'revoked': rng.random() < 0.25, 'revoked_subkeys': [0] if subs and rng.random() < 0.25 else []}
+                           'revoked': rng.random() < 0.25, 'revoked_subkeys': [0] if subs and rng.random() < 0.25 else [],
+                           'created_tz': 'naive_utc' if rng.random() < 0.2 else None}
     knames = sorted(keys)
     steps = []
     n = rng.randint(4, 12 if tier == 'thorough' else 8)
